@@ -365,10 +365,13 @@ def csscombine(path=None, url=None, cssText=None, href=None,
 
     oldser = css_parser.ser
     css_parser.setSerializer(css_parser.serialize.CSSSerializer())
-    if minify:
-        css_parser.ser.prefs.useMinified()
-    css_parser.ser.prefs.resolveVariables = resolveVariables
-    cssText = result.cssText
-    css_parser.setSerializer(oldser)
+    try:
+        if minify:
+            css_parser.ser.prefs.useMinified()
+        css_parser.ser.prefs.resolveVariables = resolveVariables
+        cssText = result.cssText
+    finally:
+        # put the caller's serializer back also if serializing raised
+        css_parser.setSerializer(oldser)
 
     return cssText
